@@ -186,6 +186,20 @@ def warm(env, rec, P):
                 pass
 
 
+def class_state(env):
+    """canonical form of the mutable state hanging off the generated classes (defaults, metadata defaults)"""
+    out = {}
+    for k in env.cls.__mro__:
+        md = vars(k).get("__spec_class__")
+        if md is not None and hasattr(md, "attrs"):
+            for n, a in md.attrs.items():
+                out[f"{k.__name__}.md.{n}"] = a.default
+        for n, v in vars(k).items():
+            if not n.startswith("__") and snap.kind_of(v) != "leaf" and not hasattr(type(v), "__get__"):
+                out[f"{k.__name__}.{n}"] = v
+    return snap.canon(out)
+
+
 def explore_class(task):
     """task: {"rec", "depth", "oracle": module-level oracle factory name, "prop", "tier",
     "line_fault_depth", "max_states"}"""
@@ -201,6 +215,7 @@ def explore_class(task):
     env = G.Env(rec)
     P = oracle.profile(rec)
     warm(env, rec, P)
+    class_state0 = class_state(env)
     depth = task["depth"]
     max_states = task.get("max_states", 3000)
     lf_depth = task.get("line_fault_depth", -1)
@@ -274,12 +289,13 @@ def explore_class(task):
                             C.inc("env_rebuilds")
                             env = G.Env(rec)
                             warm(env, rec, P)
-                if viols:
-                    # a violating transition may have damaged class-level state (a mutated class default, ...):
+                if viols and class_state(env) != class_state0:
+                    # a violating transition damaged class-level state (a mutated class default, ...):
                     # continue with a fresh class so that later transitions are judged on their own
                     C.inc("env_rebuilds")
                     env = G.Env(rec)
                     warm(env, rec, P)
+                    class_state0 = class_state(env)
                 if viols or out.raised:
                     continue
                 if key not in seen:
